@@ -509,6 +509,16 @@ fn main() {
         // evaluations is compared across that boundary, the order among source and adapters is compared above)
         both!("source, zip(arg), fold(init arg)", c, konst::iter::eval!(tick(&c, xs), copied(), zip(tick(&c, 10u32..12)), fold(tick(&c, 1u32), |a, (x, y)| a.wrapping_mul(7).wrapping_add(x + y))), tick(&c, xs).iter().copied().zip(tick(&c, 10u32..12)).fold(tick(&c, 1u32), |a, (x, y)| a.wrapping_mul(7).wrapping_add(x + y)));
     }}
+    // the counters the DSL hands out are `usize` whatever the surrounding code does with them: a result left to
+    // integer fallback would be an `i32`
+    fn tn<T>(_: &T) -> &'static str { std::any::type_name::<T>() }
+    let xs: &[u32] = &[4, 1, 6];
+    both!("type of count()", c, tn(&konst::iter::eval!(xs, count())), tn(&xs.iter().count()));
+    both!("type of position()", c, tn(&konst::iter::eval!(xs, position(|_| true))), tn(&xs.iter().position(|_| true)));
+    both!("type of rposition()", c, tn(&konst::iter::eval!(xs, rposition(|_| true))), tn(&xs.iter().rposition(|_| true)));
+    both!("type of the enumerate() index", c, { let mut n = ""; konst::iter::eval!(xs, enumerate(), for_each(|(i, _)| n = tn(&i))); n }, { let mut n = ""; xs.iter().enumerate().for_each(|(i, _)| n = tn(&i)); n });
+    both!("type of the enumerate() index (for_each!)", c, { let mut n = ""; konst::iter::for_each!{(i, _) in xs, enumerate() => n = tn(&i);} n }, { let mut n = ""; xs.iter().enumerate().for_each(|(i, _)| n = tn(&i)); n });
+    both!("index arithmetic left to inference", c, konst::iter::eval!(xs, enumerate(), map(|(i, &b)| ((i + 1) << 31) as u64 + b as u64), fold(0u64, |a, x| a.wrapping_add(x))), xs.iter().enumerate().map(|(i, &b)| ((i + 1) << 31) as u64 + b as u64).fold(0u64, |a, x| a.wrapping_add(x)));
     println!("N\t{}", unsafe { EVALS });
 }
 """
